@@ -301,6 +301,8 @@ int main(int argc, char** argv) {
             }
         }
         g_succPrefix = tmpBase + ".succ.L" + std::to_string(L) + ".";
+        clock_gettime(CLOCK_MONOTONIC, &ts);
+        double tl0 = ts.tv_sec + ts.tv_nsec * 1e-9;
         Runner R;
         R.name = "explore-L" + std::to_string(L);
         R.total = g_frontier.size();
@@ -382,7 +384,8 @@ int main(int argc, char** argv) {
         std::sort(next.begin(), next.end());
         char lb[256];
         snprintf(lb, sizeof lb, "%s{\"depth\":%d,\"states_expanded\":%llu,\"transitions\":%llu,\"new_states\":%llu,\"wall_s\":%.1f}", L ? "," : "", L,
-                 (unsigned long long)g_frontier.size(), (unsigned long long)lc["transitions"], (unsigned long long)newStates, 0.0);
+                 (unsigned long long)g_frontier.size(), (unsigned long long)lc["transitions"], (unsigned long long)newStates,
+                 (clock_gettime(CLOCK_MONOTONIC, &ts), ts.tv_sec + ts.tv_nsec * 1e-9 - tl0));
         levelsJson += lb;
         caseOffset += g_frontier.size();
         totalCases += g_frontier.size();
